@@ -733,7 +733,7 @@ def rule_d4a(toks, log):
             out += toks_of('let %s : bool =' % v, False) + cond + toks_of('; assert ( %s ) ;' % v, False)
             i = e + 2
             continue
-        if t[0] == 'id' and t[1] == 'assert_eq' and not t[2] and not guard and i + 2 < len(toks) and _is(toks[i + 1], '!') \
+        if t[0] == 'id' and t[1] == 'assert_eq' and not t[2] and i + 2 < len(toks) and _is(toks[i + 1], '!') \
                 and not toks[i + 1][2] and _is(toks[i + 2], '('):
             # D4a-eq: `assert_eq!(A, B);` (a statement, exactly two arguments) ==> `let __asserteqK : bool = ( A ) == ( B ) ;
             # assert ( __asserteqK ) ;`: A and B are still executed, the proof obligation says the panic is unreachable
@@ -747,6 +747,15 @@ def rule_d4a(toks, log):
                 args = args[:-1]
             if len(args) != 2 or not args[0] or not args[1] or any(x[2] for x in args[0] + args[1]):
                 raise Unsupported('D4a-eq: assert_eq! shape')
+            if guard:
+                # D4a-eq under `#[assert_guard]` (added for the int_memsize_* units): same treatment as `assert!`: a
+                # POSSIBLE panic, `if ! ( ( A ) == ( B ) ) { __assert_failed ( ) ; }`, not a proof obligation
+                log.append('D4a-eq `assert_eq!(%s, %s)` -> run-time guard (possible panic; `#[assert_guard]`)' % (
+                    _txt(args[0])[:60], _txt(args[1])[:60]))
+                out += toks_of('if ! ( (', False) + args[0] + toks_of(') == (', False) + args[1] + \
+                    toks_of(') ) { __assert_failed ( ) ; }', False)
+                i = e + 2
+                continue
             v = '__asserteq%d' % n
             n += 1
             log.append('D4a-eq `assert_eq!(%s, %s)` -> evaluated, then proof obligation (panic unreachable)' % (
@@ -1971,6 +1980,34 @@ def rule_d11d(toks, log):
                 new = toks_of('core :: ops :: %s ( %s , %s )' % (_D11_OPS[o[1]], a[1], b[1]), False)
                 out = out[:k] + new + out[k + 3:]
                 hit.update(x for x in (a[1], b[1]) if x in names)
+                k += len(new)
+                continue
+        # D11g (additive): `= X OP CHAIN ;` -- X a listed identifier, OP `+`/`-`, CHAIN a postfix expression (identifiers, `.`,
+        # `::`, parenthesised argument groups only at depth 0: a path / field / method-call chain, which binds tighter than
+        # every binary operator) that runs up to the `;` of the statement ==> `core::ops::Tr::m(X, CHAIN)`
+        # (rational/src/third_party/dashu_float.rs `let lb = f - l.with_precision(f.precision() + 1).unwrap();`)
+        if a[0] == 'id' and a[1] in names and o[0] == 'p' and o[1] in ('+', '-') and not (a[2] or o[2]) \
+                and out[k - 1][0] == 'p' and out[k - 1][1] == '=' and not out[k - 1][2] and b[0] == 'id' and not b[2]:
+            j, ok = k + 2, True
+            while j < len(out) and not (out[j][0] == 'p' and out[j][1] == ';'):
+                t = out[j]
+                if t[2]:
+                    ok = False
+                    break
+                if t[0] == 'p' and t[1] == '(':
+                    j = _match_close(out, j) + 1
+                    continue
+                if not (t[0] == 'id' or (t[0] == 'p' and t[1] in ('.', '::'))):
+                    ok = False
+                    break
+                j += 1
+            if ok and j < len(out) and j > k + 3:
+                chain = out[k + 2:j]
+                log.append('D11g `%s %s %s` -> core::ops::%s(..) (reference-typed left operand, postfix-chain right operand)' % (
+                    a[1], o[1], _txt(chain)[:60], _D11_OPS[o[1]].replace(' ', '')))
+                new = toks_of('core :: ops :: %s ( %s ,' % (_D11_OPS[o[1]], a[1]), False) + chain + toks_of(')', False)
+                out = out[:k] + new + out[j:]
+                hit.add(a[1])
                 k += len(new)
                 continue
         k += 1
